@@ -78,6 +78,8 @@
 #include <fcppt/enum/index_of_array.hpp>
 #include <fcppt/enum/max_value.hpp>
 #include <fcppt/enum/min_value.hpp>
+#include <fcppt/endianness/raw_value.hpp>
+#include <fcppt/endianness/reverse_mem.hpp>
 #include <fcppt/enum/names.hpp>
 #include <fcppt/enum/names_array.hpp>
 #include <fcppt/enum/size.hpp>
@@ -1235,6 +1237,26 @@ void errors_one(int value, std::size_t cat)
     else if (r.has_value() && r.get_unsafe() != ec) fail("make_optional_error_code|value", "a different code was returned");
   });
 }
+// ---------------------------------------------------------------------------- endianness::reverse_mem
+// "Reverses the byte order of the memory pointed to by data and the size of size": any block is a
+// legal argument, the empty one included (exact-size heap blocks: touching a byte outside is an
+// ASan report; a walk that never ends is caught by the watchdog).
+void reverse_mem_one(std::size_t len, unsigned seedbyte)
+{
+  count(len <= 1);
+  std::unique_ptr<fcppt::endianness::raw_value[]> block(new fcppt::endianness::raw_value[len]);
+  for (std::size_t i = 0; i < len; ++i) block[i] = static_cast<fcppt::endianness::raw_value>(seedbyte + 3 * i);
+  total("endianness::reverse_mem", [&] {
+    fcppt::endianness::reverse_mem(block.get(), len);
+    for (std::size_t i = 0; i < len; ++i)
+      if (block[i] != static_cast<fcppt::endianness::raw_value>(seedbyte + 3 * (len - 1 - i))) { fail("endianness::reverse_mem|value", "block of length " + std::to_string(len) + " is not reversed"); break; }
+  });
+}
+Reg const r_reverse_mem{"endianness_reverse_mem", Kind::exhaustive, "the block has 0 or 1 bytes",
+                        [] { for (i64 len = 0; len <= 17; ++len) for (i64 b : {0LL, 0x7fLL, 0xf0LL}) { cur2(len, b); reverse_mem_one(static_cast<std::size_t>(len), static_cast<unsigned>(b)); } },
+                        [](Ints const &c) { reverse_mem_one(static_cast<std::size_t>(static_cast<u64>(c.at(0)) % 18), static_cast<unsigned>(c.at(1)) & 0xffU); },
+                        [](Ints const &c) { return "endianness::reverse_mem on an exact-size heap block of " + std::to_string(static_cast<u64>(c.at(0)) % 18) + " bytes"; }};
+
 Reg const r_errors{"error_strings_codes", Kind::exhaustive, "the error value is 0 or lies on the int boundary lattice",
                    [] {
                      std::vector<int> vals = lattice<int>();
